@@ -2,6 +2,7 @@ import RedisGoModel.Exec.StringKeys
 import RedisGoModel.Exec.Hash
 import RedisGoModel.Exec.List
 import RedisGoModel.Exec.Set
+import RedisGoModel.Exec.ZSet
 /-! Command table and dispatch (`server.Manager.ExecCommand`: lower-cased command name, table lookup). -/
 namespace Exec
 open Resp (Reply Bytes)
@@ -10,6 +11,7 @@ def cmdTable : List (String × Cmd) := stringKeyTable
   ++ setTable
   ++ hashTable
   ++ listTable
+  ++ zsetTable
 
 def lookupCmd (name : Bytes) : Option Cmd :=
   (cmdTable.find? fun p => ofStr p.1 == name).map (·.2)
